@@ -241,13 +241,47 @@ def gen_mep_cse_constants(ck, W):
     return {"kind": "MEP", "line": line, "gen": "cse-constants"}
 
 
+def gen_exponential_dags(W, depths, model_max_depth):
+    """programs whose active code is a small DAG but a huge tree: level k holds
+    R_k = F2(T_{k+1}, R_{k+1}) and the fully shared T_k = F2(T_{k+1}, T_{k+1});
+    2*d+1 genes unfold to about 2^(d+1) nodes.  Variants differ ONLY in the last
+    leaf of the depth-first order (R_d), the controls only in the first one
+    (mirror image).  pack must reach the last leaf: distinct trees must get
+    distinct signatures at every size (tree <-> signature tables); sizes the
+    extracted model can afford are also compared exactly."""
+    F2 = next(s for s in W.by_set[1] if len(s.argcats) == 2)
+    C0 = next(s for s in W.by_set[1] if s.par)
+    one, two = "3ff0000000000000", "4000000000000000"
+    out = []
+    for d in depths:
+        for side in ("last", "first"):
+            for leaf in (one, two):
+                rows = 2 * d + 1
+                cells = {}
+                for k in range(d):
+                    # row 2k: R_k = F2(T_{k+1}, R_{k+1});  row 2k+1: T_{k+1}
+                    cells[(2 * k, 0)] = gene_tok(F2, None, [2 * k + 1, 2 * k + 2] if side == "last" else [2 * k + 2, 2 * k + 1])
+                    cells[(2 * k + 1, 0)] = (gene_tok(F2, None, [2 * k + 3, 2 * k + 3]) if k + 1 < d
+                                             else gene_tok(C0, one, []))      # T_d
+                cells[(2 * d, 0)] = gene_tok(C0, leaf, [])                    # R_d : the leaf that varies
+                line = "MEP 1 %d | %s | %s | S" % (rows, cells_str((0, 0), cells), cells_str((0, 0), cells))
+                out.append({"kind": "MEP", "line": line, "gen": "exp-dag", "family": "dag%d" % d,
+                            # with the leaf 1.0 both mirror images are the SAME complete tree
+                            "tree": ("expdag(depth=%d,%s leaf=%s)" % (d, side, leaf) if leaf != one
+                                     else "expdag(depth=%d,all leaves 1.0)" % d),
+                            "nomodel": d > model_max_depth})
+    return out
+
+
 def gen_de_related_load(ck):
     rng = ck.rng
     n = rng.randrange(1, 6)
     zeros = ["0000000000000000", "8000000000000000"]
     fin = [p for p in DE_POOL if p[:3] not in ("7ff", "fff")]
     vals = lambda: [rng.choice(zeros) if rng.random() < 0.5 else rng.choice(fin) for _ in range(n)]
-    ops = rng.choice([["S", "LZ", "S"], ["S", "LZ", "S", "LZ", "S"], ["SY", "A", "LZ", "S"], ["S", "L", "S", "LZ", "S"]])
+    ops = rng.choice([["S", "LZ", "S"], ["S", "LZ", "S", "LZ", "S"], ["SY", "A", "LZ", "S"], ["S", "L", "S", "LZ", "S"],
+                      ["S", "VZ", "S"], ["S", "VS", "S", "VZ", "S"], ["SY", "A", "VZ", "S"], ["S", "VZ", "S", "VZ", "S"],
+                      ["S", "VS", "S"]])
     return {"kind": "DE", "line": "DE %d | %s | %s | %s" % (n, " ".join(vals()), " ".join(vals()), " ".join(ops)),
             "gen": "related-load"}
 
@@ -313,9 +347,11 @@ def gen_ga_history(ck, known=False):
     vals = lambda: [str(rng.choice([0, 1, -1, 2147483647, -2147483648, 255, 256, -3, 3, rng.randrange(-10, 10)])) for _ in range(n)]
     ops = []
     for _ in range(rng.randrange(3, 11)):
-        o = rng.choice(["S", "S", "SY", "W", "W", "M", "M", "X", "L", "LY", "LF", "A"])
+        o = rng.choice(["S", "S", "SY", "W", "W", "WS", "M", "M", "X", "L", "LY", "LF", "A"])
         if o == "W":
             ops += ["W", str(rng.randrange(n)), vals()[0]]
+        elif o == "WS":
+            ops += ["WS", str(rng.randrange(n))]
         elif o == "M":
             ops += ["M", str(rng.choice([0, 100, 500, 1000])), str(rng.randrange(1 << 30))]
         elif o == "X":
@@ -338,7 +374,7 @@ def gen_de_history(ck, known=False):
     vals = lambda pool=DE_POOL: [rng.choice(pool) if rng.random() < 0.7 else "%016x" % (rng.getrandbits(64) & 0xbfefffffffffffff) for _ in range(n)]
     ops = []
     for _ in range(rng.randrange(3, 11)):
-        o = rng.choice(["S", "S", "SY", "W", "W", "V", "V", "X", "L", "LY", "LF", "LZ", "A"])
+        o = rng.choice(["S", "S", "SY", "W", "W", "V", "V", "VS", "VZ", "X", "L", "LY", "LF", "LZ", "A"])
         if o == "W":
             ops += ["W", str(rng.randrange(n)), vals()[0]]
         elif o == "V":
@@ -533,6 +569,10 @@ def model_line(case, recs):
             elif o in ("W", "I"):
                 x = list(x); x[int(ops[i + 1])] = ops[i + 2]
                 out += ops[i:i + 3]; i += 3
+            elif o == "WS":
+                j = int(ops[i + 1])
+                x = rec["G"].split(",")
+                out += ["W", ops[i + 1], x[j]]; i += 2
             elif o == "M":
                 nx = rec["G"].split(",")
                 cands = [j for j in range(len(nx)) if nx[j] != x[j]]
@@ -582,6 +622,8 @@ def model_line(case, recs):
                 out += ops[i:i + 3]; i += 3
             elif o == "V":
                 out += ops[i:i + 2]; i += 2
+            elif o in ("VS", "VZ"):
+                out += ["V", rec["G"]]; i += 1
             elif o == "X":
                 out += ["X", rec["G"]]; i += 2
             elif o in ("L", "LY", "LF", "LZ"):
@@ -705,7 +747,7 @@ def shrink(harness, case, key):
     sec = sections(case["line"])
     ops = sec[3]
     arity = {"S": 1, "SY": 1, "R": 4, "B": 3, "D": 3, "M": 3, "X": 4, "C": 1, "L": 1, "LY": 1, "LF": 1, "A": 1, "I": 4,
-             "W": 3, "V": 2, "SM": 2, "LB": 3, "LU": 3, "LZ": 1}
+             "W": 3, "V": 2, "SM": 2, "LB": 3, "LU": 3, "LZ": 1, "VS": 1, "VZ": 1, "WS": 2}
     if sec[0][0] in ("GA", "DE", "TEAM"):
         arity.update({"X": 3 if sec[0][0] != "DE" else 2, "I": 3, "M": 3})
     groups = []
@@ -839,6 +881,8 @@ def run(ck):
             cases.append(gen_mep_related_load(ck, W))
         for _ in range(1500 if T else 120):
             cases.append(gen_mep_cse_constants(ck, W))
+        cases += gen_exponential_dags(W, [3, 9, 12, 14, 16, 17, 18, 19, 20] if T else [3, 9, 11, 17, 20],
+                                      model_max_depth=14 if T else 11)
         for _ in range(1000 if T else 80):
             cases.append(gen_de_related_load(ck))
         for _ in range(10):
@@ -849,6 +893,7 @@ def run(ck):
     hout, crashes = run_harness_resilient(harness, [c["line"] for c in cases])
     mlines = []
     midx = []
+    nomodel = []
     allrecs = [None] * len(cases)
     for k, c in enumerate(cases):
         ho = hout[k]
@@ -869,6 +914,9 @@ def run(ck):
             continue
         recs = parse_records(ho)
         allrecs[k] = recs
+        if c.get("nomodel"):
+            nomodel.append(k)
+            continue
         ml = model_line(c, recs)
         if ml is None:
             ck.add_diff({"line": c["line"]}, None, ho,
@@ -884,14 +932,15 @@ def run(ck):
     sig_of_tree = {}
     hist = {}
     pairs = 0
-    for j, k in enumerate(midx):
+    todo = [(j, k) for j, k in enumerate(midx)] + [(None, k) for k in nomodel]
+    for j, k in todo:
         c = cases[k]
         recs = allrecs[k]
-        mrecs = parse_records(mout[j + 1])
+        mrecs = parse_records(mout[j + 1]) if j is not None else None
         ck.count()
         hist[c["kind"] + ":" + c["gen"]] = hist.get(c["kind"] + ":" + c["gen"], 0) + 1
         ck.nontriv(c["line"])
-        if j < 2 or j % (len(midx) // 4 + 1) == 0:
+        if j is not None and (j < 2 or j % (len(midx) // 4 + 1) == 0):
             ck.sample({"scenario": c["line"][:300], "impl": hout[k][:300], "model": mout[j + 1][:300]})
         # ---- oracle on the implementation
         for key, what, n in oracle(c, recs):
@@ -920,6 +969,8 @@ def run(ck):
                                   "signature": sig})
             stream_of_sig.setdefault(sig, (t, c["line"]))
         # ---- correspondence model / implementation
+        if mrecs is None:
+            continue        # sizes the extracted model is not run on: implementation-side oracles only
         if len(mrecs) != len(recs):
             ck.add_diff({"line": c["line"]}, mout[j + 1][:600], hout[k][:600], what="different number of records (model guard = UB?)")
             continue
